@@ -44,6 +44,10 @@ def standins(tier, seed):
             dict(p=5, q=1, random=1, grades_a=(2, 3), grades_b=(1,), ops=['gp', 'normsq', 'proj', 'op'],
                  variants=[dict(cse=True, graded=False), dict(cse=False, graded=False)])]
     cfgs = cfgs + (wide[:1] if tier == 'quick' else wide)
+    # non-terminating outer series (scalar + bivector) in 4-D: small factorial coefficients must survive every symbol class alike
+    cfgs.append(dict(p=4, random=2, study_outer=True, ops=['outertan', 'outerexp', 'outersin', 'outercos'],
+                     variants=[dict(cse=True, graded=False), dict(cse=True, graded=False, symbolcls='sympy'), dict(cse=False, graded=False),
+                               dict(cse=True, graded=False, wrapper='identity')]))
     names = [{'name': 'typeid', 'bound': 'generated function names pairwise distinct across all operators and all ordered key tuples (d<=2 exhaustive, d=3 up to length 3): with a wrapper set functions are called by name',
               'job': {'kind': 'typeid', 'module': 'standins.jobs2', 'configs': [dict(p=1), dict(p=2), dict(p=2, q=0, r=1, maxlen=2)]}}]
     return names + [{'name': f'options#{i}', 'bound': 'grade-block operand pairs per signature x the product (sampled in quick) of cse x graded x symbol class x wrapper; Fraction values; every operator compared with the default-options algebra',
